@@ -10,14 +10,19 @@ mkdir -p "$VERIF_DIR/out" "$VERIF_DIR/evidence"
 bin="$VERIF_DIR/out/verifcheck.$prop.$$"
 (
   flock 9
-  build_harness && cp "$VERIF_DIR/bin/verifcheck" "$bin"
+  build_harness && cp "$VERIF_DIR/bin/verifcheck" "$bin" || exit 1
+  # C08 thorough: one twin of every fourth group runs under the race detector (see mon/c08/race.go)
+  if [ "$prop" = "C08" ] && [ "$mode" = "thorough" ]; then
+    build_harness_race && cp "$VERIF_DIR/bin/verifcheck.race" "$bin.race" || exit 1
+  fi
 ) 9>"$VERIF_DIR/out/.build.lock" >"$VERIF_DIR/out/build-$prop.log" 2>&1
 if [ $? -ne 0 ]; then
   cat "$VERIF_DIR/out/build-$prop.log"
   echo "BUILD-FAILED property=$prop (harness does not compile against $REPO_DIR)"
   exit 2
 fi
-trap 'rm -f "$bin"' EXIT
+trap 'rm -f "$bin" "$bin.race"' EXIT
+[ -f "$bin.race" ] && export VERIF_RACE_BIN="$bin.race"
 cd "$VERIF_DIR"
 case "$mode" in
   quick|thorough) "$bin" run --prop "$prop" --tier "$mode" "$@" ;;
